@@ -557,10 +557,106 @@ func ruleCMP14(c *Ctx) []Ob {
 				if !ok {
 					continue
 				}
-				bp, isP := bk.Map.(*ssa.Parameter)
-				if !isP {
+				// the record of depths: a map parameter of the walk, or a map kept in a field of the walk's state
+				// (a struct the function is given): then the destinations are the maps of field values in the
+				// other fields of that struct, and "the next field" is the return to the caller's loop
+				if _, isP := bk.Map.(*ssa.Parameter); !isP {
+					base, _, nm := fieldLoad(bk.Map)
+					bpar, baseIsParam := base.(*ssa.Parameter)
+					mt2, isMap2 := bk.Map.Type().Underlying().(*types.Map)
+					if nm == nil || !baseIsParam || !isMap2 {
+						continue
+					}
+					if bt, isB := mt2.Elem().Underlying().(*types.Basic); !isB || bt.Info()&types.IsInteger == 0 {
+						continue
+					}
+					st, isStruct := nm.Underlying().(*types.Struct)
+					if !isStruct {
+						continue
+					}
+					for fi := 0; fi < st.NumFields(); fi++ {
+						pm, ok := st.Field(fi).Type().Underlying().(*types.Map)
+						if !ok {
+							continue
+						}
+						if _, isI := pm.Elem().Underlying().(*types.Interface); !isI {
+							continue
+						}
+						dstField := st.Field(fi).Name()
+						// a map of field values the walk reads (the document it renames) is not a destination
+						readHere := false
+						for _, b2 := range fn.Blocks {
+							for _, in2 := range b2.Instrs {
+								if lk, ok := in2.(*ssa.Lookup); ok {
+									if _, f2, _ := fieldLoad(lk.X); f2 == dstField {
+										readHere = true
+									}
+								}
+								if rg, ok := in2.(*ssa.Range); ok {
+									if _, f2, _ := fieldLoad(rg.X); f2 == dstField {
+										readHere = true
+									}
+								}
+							}
+						}
+						if readHere {
+							continue
+						}
+						n++
+						k++
+						key := fmt.Sprintf("%s/a field that takes a name removes what a deeper field stored under it #%d", c.fname(fn), k)
+						isDst := func(v ssa.Value) bool {
+							b2, f2, _ := fieldLoad(v)
+							return f2 == dstField && (b2 == ssa.Value(bpar) || sameOrigin(b2, bpar))
+						}
+						settles := func(in2 ssa.Instruction) bool {
+							switch x := in2.(type) {
+							case *ssa.MapUpdate:
+								return isDst(x.Map) && (x.Key == bk.Key || sameOrigin(x.Key, bk.Key))
+							case *ssa.Call:
+								if bi, isB := x.Call.Value.(*ssa.Builtin); isB && bi.Name() == "delete" && len(x.Call.Args) == 2 {
+									return isDst(x.Call.Args[0]) && (x.Call.Args[1] == bk.Key || sameOrigin(x.Call.Args[1], bk.Key))
+								}
+							}
+							return false
+						}
+						leak := false
+						hdr, _ := c.innermostLoop(b)
+						seenB := map[*ssa.BasicBlock]bool{}
+						var walk func(bb *ssa.BasicBlock, fromIdx int)
+						walk = func(bb *ssa.BasicBlock, fromIdx int) {
+							for j := fromIdx; j < len(bb.Instrs); j++ {
+								if settles(bb.Instrs[j]) {
+									return
+								}
+								if _, isRet := bb.Instrs[j].(*ssa.Return); isRet {
+									if hdr == nil {
+										leak = true
+									}
+									return
+								}
+							}
+							for _, s2 := range bb.Succs {
+								if hdr != nil && s2 == hdr {
+									leak = true
+									continue
+								}
+								if !seenB[s2] {
+									seenB[s2] = true
+									walk(s2, 0)
+								}
+							}
+						}
+						walk(b, i+1)
+						if leak {
+							o.add(VIOLATED, key, relPath(c, bk.Pos()), "after the name has been recorded as taken, the helper can return with neither a store under that name nor a delete of it in %s.%s: what a deeper field stored under the name stays", namedName(nm), dstField)
+						} else {
+							o.add(OK, key, relPath(c, bk.Pos()), "every path from the record to the return stores under the name or deletes it")
+						}
+					}
 					continue
 				}
+				bp := bk.Map.(*ssa.Parameter)
 				mt, isMap := bp.Type().Underlying().(*types.Map)
 				if !isMap {
 					continue
@@ -2037,12 +2133,14 @@ func ruleCOD6(c *Ctx) []Ob {
 		// byte slice among the leaves of the arithmetic), not to the offset the decoder has just produced
 		rezones, fromDecoded := false, false
 		extraGuard := ""
+		unsignedSeconds := ""
 		for g := range c.staticReach(fn) {
 			allCalls(g, func(ci ssa.CallInstruction) {
 				if calleeFullName(ci) != "time.FixedZone" || len(ci.Common().Args) < 2 {
 					return
 				}
 				fromBytes, fromZone := false, false
+				byteSigned, byteWidened := map[int64]bool{}, map[int64]bool{}
 				seenV := map[ssa.Value]bool{}
 				var walk func(v ssa.Value, d int)
 				walk = func(v ssa.Value, d int) {
@@ -2055,6 +2153,20 @@ func ruleCOD6(c *Ctx) []Ob {
 						walk(x.X, d+1)
 						walk(x.Y, d+1)
 					case *ssa.Convert:
+						// how a byte of the encoding enters the arithmetic: as a signed 8-bit value, or widened as it is
+						if ld, ok := x.X.(*ssa.UnOp); ok && ld.Op == token.MUL {
+							if ia, ok := ld.X.(*ssa.IndexAddr); ok {
+								if k, isK := constInt(ia.Index); isK {
+									if tb, ok := x.Type().Underlying().(*types.Basic); ok {
+										if tb.Kind() == types.Int8 {
+											byteSigned[k] = true
+										} else {
+											byteWidened[k] = true
+										}
+									}
+								}
+							}
+						}
 						walk(x.X, d+1)
 					case *ssa.ChangeType:
 						walk(x.X, d+1)
@@ -2114,6 +2226,24 @@ func ruleCOD6(c *Ctx) []Ob {
 					}
 				}
 				walk(ci.Common().Args[1], 0)
+				// the last byte of the encoding (the seconds of the offset) is a SIGNED byte: widened as it is,
+				// the own derivation repeats the decoder's mistake and the two offsets never differ
+				{
+					last := int64(-1)
+					for k := range byteSigned {
+						if k > last {
+							last = k
+						}
+					}
+					for k := range byteWidened {
+						if k > last {
+							last = k
+						}
+					}
+					if last >= 0 && byteWidened[last] && !byteSigned[last] {
+						unsignedSeconds = relPath(c, ci.Pos())
+					}
+				}
 				// the correction is made whenever the two offsets differ: the conditions it sits behind look at
 				// the error, the length, the version byte (element 0) and the offsets - at no other byte of the
 				// encoding (a test of the minutes' high byte skips the offsets between -59 and -1 seconds)
@@ -2197,6 +2327,8 @@ func ruleCOD6(c *Ctx) []Ob {
 			o.add(UNDECIDED, key, relPath(c, dec.Pos()), "the body of (*time.Time).UnmarshalBinary was not loaded")
 		case !buggy:
 			o.add(OK, key, relPath(c, dec.Pos()), "the time package this program is built with does not add the seconds of the offset as an unsigned byte")
+		case rezones && unsignedSeconds != "":
+			o.add(VIOLATED, key, unsignedSeconds, "the function's own derivation of the zone offset widens the last byte of the encoding (the seconds of the offset) as an unsigned byte, exactly as the decoder of the time package does: the two offsets never differ, the correction never runs, and a negative offset with seconds is read back 256 seconds too large (the byte must enter the arithmetic as int8)")
 		case rezones && extraGuard != "":
 			o.add(VIOLATED, key, extraGuard, "the correction of the decoded zone offset is made only behind a test of another byte of the encoding: the minutes of the offset carry its sign only from one minute on, so for an offset between -59 and -1 seconds (minutes 0, seconds -N) a guard on the minutes' high byte skips the correction, and the time is read back at 256-N seconds east")
 		case rezones:
